@@ -1032,7 +1032,22 @@ std::string sqf::parser::preprocessor::impl_default::instance::parse_file(::sqf:
                 auto word = wordstream.str();
                 wordstream.str("");
                 if (current_file_scope().conditions.empty() || current_file_scope().conditions.back().allow_write)
-                    sstream << word << c;
+                {
+                    auto m = word.empty() ? std::nullopt : try_get_macro(word);
+                    if (m.has_value() && !m.value().is_callable())
+                    { // A macro name directly in front of a string is a macro use like any other
+                        auto res = handle_macro(runtime, fileinfo, fileinfo, m.value(), empty_parammap);
+                        if (m_errflag)
+                        {
+                            return res;
+                        }
+                        sstream << res << c;
+                    }
+                    else
+                    { // No macro, or a function-like macro that is not called
+                        sstream << word << c;
+                    }
+                }
             } break;
             case '\n':
             {
